@@ -110,19 +110,90 @@ def decimal : List Nat → Nat
   | [] => 0
   | c :: cs => (c - 48) * 10 ^ cs.length + decimal cs
 
-/-- HTML "valid date string" with the year/month/day it denotes:
-    `YYYY…-MM-DD`, at least four year digits, year ≥ 1, a real calendar day. -/
-def validDateStr (s : Str) (y m d : Nat) : Prop :=
-  ∃ ys ms ds : Str, s = ys ++ 45 :: (ms ++ 45 :: ds) ∧
-    (∀ c ∈ ys, digit c) ∧ (∀ c ∈ ms, digit c) ∧ (∀ c ∈ ds, digit c) ∧
+/-- All code points are ASCII digits. -/
+def digits (s : Str) : Prop := ∀ c ∈ s, digit c
+
+/-- `YYYY…-MM-DD` (at least four year digits), denoting the numbers `y`, `m`, `d`. -/
+def dateShape (s : Str) (y m d : Nat) : Prop :=
+  ∃ ys ms ds : Str, s = ys ++ 45 :: (ms ++ 45 :: ds) ∧ digits ys ∧ digits ms ∧ digits ds ∧
     4 ≤ ys.length ∧ ms.length = 2 ∧ ds.length = 2 ∧
-    y = decimal ys ∧ m = decimal ms ∧ d = decimal ds ∧ validDate y m d
+    y = decimal ys ∧ m = decimal ms ∧ d = decimal ds
+
+/-- `YYYY…-MM`. -/
+def monthShape (s : Str) (y m : Nat) : Prop :=
+  ∃ ys ms : Str, s = ys ++ 45 :: ms ∧ digits ys ∧ digits ms ∧
+    4 ≤ ys.length ∧ ms.length = 2 ∧ y = decimal ys ∧ m = decimal ms
+
+/-- `YYYY…-Www`. -/
+def weekShape (s : Str) (y w : Nat) : Prop :=
+  ∃ ys ws : Str, s = ys ++ 45 :: 87 :: ws ∧ digits ys ∧ digits ws ∧
+    4 ≤ ys.length ∧ ws.length = 2 ∧ y = decimal ys ∧ w = decimal ws
+
+/-- `HH:MM`. -/
+def timeShape (s : Str) (h mi : Nat) : Prop :=
+  ∃ hs ms : Str, s = hs ++ 58 :: ms ∧ digits hs ∧ digits ms ∧
+    hs.length = 2 ∧ ms.length = 2 ∧ h = decimal hs ∧ mi = decimal ms
+
+/-- `YYYY…-MM-DDTHH:MM`. -/
+def dateTimeShape (s : Str) (y m d h mi : Nat) : Prop :=
+  ∃ ds ts : Str, s = ds ++ 84 :: ts ∧ dateShape ds y m d ∧ timeShape ts h mi
+
+/-- HTML "valid date string": a real proleptic-Gregorian calendar day of a year ≥ 1. -/
+def validDateStr (s : Str) (y m d : Nat) : Prop := dateShape s y m d ∧ validDate y m d
+
+/-- HTML "valid month string". -/
+def validMonthStr (s : Str) (y m : Nat) : Prop := monthShape s y m ∧ 1 ≤ y ∧ 1 ≤ m ∧ m ≤ 12
+
+/-- HTML "valid week string": the week number is at most the number of ISO weeks of the year. -/
+def validWeekStr (s : Str) (y w : Nat) : Prop :=
+  weekShape s y w ∧ 1 ≤ y ∧ 1 ≤ w ∧ w ≤ isoWeeksInYear y
 
 /-- HTML "valid time string" (the `HH:MM` form only, as accepted by the code). -/
-def validTimeStr (s : Str) (h mi : Nat) : Prop :=
-  ∃ hs ms : Str, s = hs ++ 58 :: ms ∧
-    (∀ c ∈ hs, digit c) ∧ (∀ c ∈ ms, digit c) ∧ hs.length = 2 ∧ ms.length = 2 ∧
-    h = decimal hs ∧ mi = decimal ms ∧ h ≤ 23 ∧ mi ≤ 59
+def validTimeStr (s : Str) (h mi : Nat) : Prop := timeShape s h mi ∧ h ≤ 23 ∧ mi ≤ 59
+
+/-- HTML "valid local date and time string" (the `T`-separated `HH:MM` form only). -/
+def validDateTimeStr (s : Str) (y m d h mi : Nat) : Prop :=
+  dateTimeShape s y m d h mi ∧ validDate y m d ∧ h ≤ 23 ∧ mi ≤ 59
+
+/-! ### Numbers (HTML "valid floating-point number") -/
+
+/-- Mantissa `m`, with integer digits `ip` and fraction digits `fp`:
+    `digits`, `digits.digits` or `.digits` (never `digits.`). -/
+def mantShape (m ip fp : Str) : Prop :=
+  digits ip ∧ digits fp ∧ ((fp = [] ∧ ip ≠ [] ∧ m = ip) ∨ (fp ≠ [] ∧ m = ip ++ 46 :: fp))
+
+/-- Exponent part `x` denoting `e`: empty, or `e`/`E`, an optional sign, and digits. -/
+def expShape (x : Str) (e : Int) : Prop :=
+  (x = [] ∧ e = 0) ∨
+  ∃ c ed, (c = 101 ∨ c = 69) ∧ digits ed ∧ ed ≠ [] ∧
+    ((x = c :: ed ∧ e = Int.ofNat (decimal ed)) ∨
+     (x = c :: 43 :: ed ∧ e = Int.ofNat (decimal ed)) ∨
+     (x = c :: 45 :: ed ∧ e = - Int.ofNat (decimal ed)))
+
+/-- `s` is a valid floating-point number string denoting `(-1)^neg · mant · 10^exp`:
+    optional `-`, mantissa, optional exponent; the fraction digits are folded into `mant`. -/
+def numShape (s : Str) (neg : Bool) (mant : Nat) (exp : Int) : Prop :=
+  ∃ m ip fp x : Str, ∃ e : Int,
+    s = (if neg then [45] else []) ++ (m ++ x) ∧ mantShape m ip fp ∧ expShape x e ∧
+    mant = decimal (ip ++ fp) ∧ exp = e - Int.ofNat fp.length
+
+/-! ### Ranges -/
+
+/-- "`v` is out of the range `[mn, mx]`" for a strict order `lt`; either bound may be absent.
+    A missing (or invalid, hence unparsed) value is never out of range.  When `wrap` is set
+    (times of day) and the minimum exceeds the maximum, the range wraps around midnight: it is
+    `[mn, 24:00) ∪ [00:00, mx]`, so `v` is out of range iff it lies strictly between `mx` and
+    `mn`. -/
+def OutOfRange {α : Type} (lt : α → α → Prop) (wrap : Prop) (mn mx v : Option α) : Prop :=
+  match v with
+  | none => False
+  | some x =>
+    match mn, mx with
+    | some a, some b =>
+      (wrap ∧ lt b a → lt b x ∧ lt x a) ∧ (¬ (wrap ∧ lt b a) → lt x a ∨ lt b x)
+    | some a, none => lt x a
+    | none, some b => lt b x
+    | none, none => False
 
 end Spec
 end SoupVerif
